@@ -112,6 +112,9 @@ def generate(seed, idx, tier):
             f = gen_frame_spec(rng, shape, batch)
             o = {'op': kind, 'frame': f}
             o.update(gen_wopts(rng, f['nrows'], has_cat, knobs))
+            if kind in ('append', 'overwrite') and rng.random() < 0.12:
+                # carried out by a different process
+                o['other'] = True
             if kind == 'append':
                 o['entry'] = rng.choice(('write', 'wrg'))
             elif kind == 'overwrite':
@@ -278,7 +281,8 @@ def _execute(case, fs, ds, res, cnt, probes, bump, violation, parts, pkinds):
                     df = F.build_frame(op['frame'])
                     if len(df) == 0:
                         continue       # refused today (C07 matter)
-                    D.do_append(fs, ds, df, op, 'hive', parts)
+                    _run(fs, op, lambda: D.do_append(fs, ds, df, op, 'hive',
+                                                     parts) and None, probes)
                     _add(rows, order, df, parts)
                 elif kind == 'overwrite':
                     df = F.build_frame(op['frame'])
@@ -286,18 +290,18 @@ def _execute(case, fs, ds, res, cnt, probes, bump, violation, parts, pkinds):
                         continue
                     kw = D.w_opts(op)
                     if op['entry'] == 'write':
-                        D.write(ds, df, file_scheme='hive',
-                                partition_on=parts, append='overwrite',
-                                **kw, **D.io(fs))
+                        _run(fs, op, lambda: D.write(
+                            ds, df, file_scheme='hive', partition_on=parts,
+                            append='overwrite', **kw, **D.io(fs)), probes)
                     else:
                         from fastparquet.writer import overwrite
-                        overwrite(ds, df,
-                                  row_group_offsets=kw.get(
-                                      'row_group_offsets'),
-                                  sort_pnames=op['sort_pnames'],
-                                  compression=kw.get('compression'),
-                                  **D.io(fs, remove=True),
-                                  stats=kw.get('stats', True))
+                        _run(fs, op, lambda: overwrite(
+                            ds, df,
+                            row_group_offsets=kw.get('row_group_offsets'),
+                            sort_pnames=op['sort_pnames'],
+                            compression=kw.get('compression'),
+                            **D.io(fs, remove=True),
+                            stats=kw.get('stats', True)), probes)
                     canon = F.canon_frame(df)
                     uids, new_rows = D.by_uid(canon)
                     # rows without a partition key are not written
@@ -440,6 +444,17 @@ def _execute(case, fs, ds, res, cnt, probes, bump, violation, parts, pkinds):
         res['sample'] = {'partitions': case['shape']['parts'],
                          'ops': trail, 'knobs': case['knobs']}
     return res
+
+
+def _run(fs, op, call, probes):
+    """The library call of a step: here, or as a different process."""
+    if not op.get('other'):
+        return call()
+    out = D.in_other_process(fs, call)
+    probes['step_by_another_process'] = probes.get(
+        'step_by_another_process', 0) + 1
+    if out[0] == 'exc':
+        raise D.ReaderFailed('%s: %s' % out[1:])
 
 
 def _add(rows, order, df, parts):
